@@ -4,9 +4,9 @@ CONSTANTS
     CacheSound = FALSE
     FetchedHashChecked = FALSE
     MaxAlter = 2
-    TamperFields = {"resign", "prev", "epoch", "avk", "params", "msgEpoch", "nextAvk", "nextParams", "sig", "kind"}
+    TamperFields = {"resign", "avk", "params", "nextAvk", "nextParams"}
     MsgModes = {"k", "r"}
-    Twins = FALSE
+    Twins = TRUE
     ForgeEpochs = {1, 2, 3, 4}
     Forge2Pars = {"p"}
     ForgeKeys = {"H3", "H4", "A"}
